@@ -1,10 +1,10 @@
 #!/venv/bin/python
 # Replay of a counterexample for property C14, obligation A.fields (E1).
-# Runs the harness obligation CONCRETELY on the solver's input against the library in '/repo'
+# Runs the harness obligation CONCRETELY on the solver's input against the library in '/tmp/repo_dev'
 # (no CrossHair, no solver).  Exit 0: property holds on this input; exit 1: violation reproduced.
 import os, sys
 os.environ.update({'VP_PART': '0/1', 'VERIF_TIER': 'quick', 'VP_KNOWN_OFF': '1', 'VERIF_SEED': '0'})
-os.environ.setdefault('VP_REPO', '/repo')
+os.environ.setdefault('VP_REPO', '/tmp/repo_dev')
 sys.path[:0] = ['/verif']
 sys.dont_write_bytecode = True
 import importlib
